@@ -20,7 +20,8 @@ func c20OwnershipIsAFunction(p *core.Program, r *core.Report) {
 		return
 	}
 	info := pk.TypesInfo
-	allowed := map[string]bool{"nodes": true, "ReplicaN": true, "partitionN": true, "Hasher": true, "mu": true}
+	// logger/stats: observers, not inputs of the answer
+	allowed := map[string]bool{"nodes": true, "ReplicaN": true, "partitionN": true, "Hasher": true, "mu": true, "logger": true, "Logger": true, "stats": true, "Stats": true}
 	placement := map[string]bool{"partition": true, "partitionNodes": true, "shardNodes": true, "ShardNodes": true, "ownsShard": true, "ownsShards": true, "containsShards": true, "primaryFieldTranslationNode": false}
 	n := 0
 	for _, fd := range core.AllFuncDecls(pk) {
